@@ -37,9 +37,10 @@ type LeakyBucketPacer struct {
 
 	pacingInterval time.Duration
 
-	qLock sync.RWMutex
-	queue *list.List
-	done  chan struct{}
+	qLock     sync.RWMutex
+	queue     *list.List
+	done      chan struct{}
+	closeOnce sync.Once
 
 	ssrcToWriter map[uint32]interceptor.RTPWriter
 	writerLock   sync.RWMutex
@@ -176,7 +177,7 @@ func (p *LeakyBucketPacer) Run() {
 
 // Close closes the LeakyBucketPacer.
 func (p *LeakyBucketPacer) Close() error {
-	close(p.done)
+	p.closeOnce.Do(func() { close(p.done) })
 
 	return nil
 }
